@@ -624,6 +624,33 @@ def parse_bodies(text, wanted=None):
     return bodies
 
 
+def parse_consts(text):
+    """`const NAME: TY = const LIT;` one-liners and `const NAME: TY = { body }` -> {name: ("lit", ty, text) | ("body", Body)}"""
+    out = {}
+    lines = text.split("\n")
+    i, n = 0, len(lines)
+    while i < n:
+        line = lines[i]
+        if line.startswith("const ") or line.startswith("static "):
+            m = re.match(r"^(?:const|static(?: mut)?) (.*?): (.*) = const (.*);$", line)
+            if m and "promoted[" not in m.group(1):
+                out.setdefault(m.group(1).strip(), ("lit", m.group(2).strip(), m.group(3).strip()))
+            else:
+                m = re.match(r"^(?:const|static(?: mut)?) (.*?): (.*) = \{$", line)
+                if m and "promoted[" not in m.group(1):
+                    j = i
+                    while j < n and lines[j] != "}":
+                        j += 1
+                    b = Body(m.group(1).strip(), line)
+                    b.raw = "\n".join(lines[i:j + 1])
+                    b._args_text = ""
+                    b.ret_ty = m.group(2).strip()
+                    out.setdefault(m.group(1).strip(), ("body", b))
+                    i = j
+        i += 1
+    return out
+
+
 def parse_body(b):
     """Fill in blocks of a Body from b.raw (lazy)."""
     if b.blocks:
